@@ -80,7 +80,9 @@ FAIL_VALUES = [0] + [(-k) & 0xff for k in range(1, 9)]
 
 def check_claim(chk, cfg, m, fn):
     tag = "%s[%s]" % (fn.name, cfg)
-    ps = [p for p in paths.enumerate_paths(fn, m) if not paths.is_assert_fail_path(p)]
+    # messageq_claim contains the compare-exchange retry loop: paths with at most one retry are examined, every CAS
+    # event on them is checked against the value loaded in the same iteration (the rules are per-iteration)
+    ps = [p for p in paths.enumerate_paths(fn, m, loop_bound=1) if not paths.is_assert_fail_path(p)]
     n_cas = 0
     optimistic = False
     for p in ps:
